@@ -370,6 +370,20 @@ func toSMTPErr(err error) *smtp.SMTPError {
 		res.Message = smtpErr.Message
 	}
 
+	// Whether the delivery is retried is decided by IsTemporaryOrUnspec (see
+	// tryDelivery). If an explicit marker (exterrors.WithTemporary) overrides
+	// the class of the SMTP code, the recorded status has to follow it.
+	if exterrors.IsTemporaryOrUnspec(err) != (res.Code/100 == 4) {
+		if res.Code/100 == 4 {
+			res.Code = 554
+		} else {
+			res.Code = 451
+		}
+		if res.EnhancedCode != smtp.EnhancedCodeNotSet {
+			res.EnhancedCode[0] = res.Code / 100
+		}
+	}
+
 	return res
 }
 
